@@ -93,7 +93,8 @@ def run(tier):
                        'Static bounds for the T0 virtual machines that parse all untrusted input (X.509, keys, PEM, both handshakes): '
                        '(1) exhaustive maximum data-/return-stack depth over every path of every word, with native stack effects derived '
                        'from the IR of the generated run function, compared with the dp_stack/rp_stack arrays of the context structs; '
-                       'stack balance at every join (no unbounded growth), acyclic call graph; stack pointers initialised to the arrays. '
+                       'stack balance at every join (no unbounded growth), acyclic call graph; stack pointers initialised to the arrays; '
+                       '(2) record-length gates of the four protection modes refuse every length that would underflow the decrypt arithmetic or exceed 2^14 plaintext bytes. '
                        'NOT decided: memory safety of the C code of native words and hand-written decoders, termination beyond the acyclic '
                        'T0 call graph, arithmetic UB.',
                        assumptions=['the generated interpreter skeleton (dispatch switch, T0_ENTER, ret) is the T0 compiler\'s standard one; '
@@ -103,5 +104,7 @@ def run(tier):
     for key in t0.INTERPRETERS:
         check_depth(chk, key)
         check_init(chk, key)
+    from . import c02
+    c02.length_gates(chk)
     chk.floor('interpreters', len(t0.INTERPRETERS), 7)
     return chk.finish()
